@@ -9,8 +9,11 @@ def addr(base, off):
     if base == 'const': return ('I', 0, 32, 0x1000 + off)
     return ESI if off == 0 else ('O', '+', [ESI, ('I', 0, 32, off)])
 def cell(base, off, w): return ('M', w, addr(base, off), None)
+R64 = ('D', 'r64', 64, 0, 1)
 def val(i, w, kind):
     if kind == 'sym': return ('D', 'v%d_%d' % (i, w), w, 0, 1)
+    if isinstance(kind, tuple):      # ('slice', off): memory as an image of one 64-bit symbol -> adjacent cells hold adjacent slices
+        return ('S', R64, 8 * kind[1], 8 * kind[1] + w)
     return ('I', 0, w, (0x11223344 * (i + 1) + 0x0f1e2d3c) % (1 << w))
 
 def history_line(base, stores, loads, kinds=None):
@@ -55,6 +58,12 @@ def gen(chk):
         kinds = [rng.choice(['sym', 'sym', 'const']) for _ in range(k)]
         loads = [rng.choice(shapes) for _ in range(3)]
         add('random', history_line(base, stores, loads, kinds), dict(base=base, stores=stores, loads=loads, kinds=kinds))
+        if i % 3 == 0:
+            # image histories: every store writes the matching slice of r64; wide loads merge adjacent slices, then narrow re-reads
+            stores = [rng.choice([(o, w) for (o, w) in shapes if o + w // 8 <= 8]) for _ in range(k)]
+            kinds = [('slice', o) for (o, w) in stores]
+            loads = [rng.choice(shapes) for _ in range(2)] + [rng.choice([(o, 8) for o in range(8)]) for _ in range(3)]
+            add('image', history_line(base, stores, loads, kinds), dict(base=base, stores=stores, loads=loads, kinds=kinds))
     return lines, meta, hist
 
 def reference_check(m, impl_out, seeds=(0, 1, 2)):
@@ -118,7 +127,58 @@ def run(tier):
         why = reference_check(meta[k], impl[k], seeds=(0,)) if False else None
     return finish_with_reference(chk, lines, meta, model, impl, mism, kf)
 
+def rep_programs(rng, tier):
+    """(rep-prefixed program, unrolled program) pairs with a concrete count: same final registers and memory expected"""
+    pairs = []
+    pre_sets = ['cld', 'std', 'cld; movl $0x2000,%esi; movl $0x3000,%edi']
+    for pre in pre_sets:
+        for n in (0, 1, 2, 3, 5):
+            for ins in ('movsb', 'movsw', 'movsl', 'stosb', 'stosl', 'lodsb'):
+                for copy in ('', 'movl %ecx,%edx; movl %ecx,8(%ebp)'):
+                    post = 'movl 8(%ebp),%ebx' if copy else ''
+                    a = '; '.join(x for x in [pre, 'movl $%d,%%ecx' % n, copy, 'rep ' + ins, post] if x)
+                    b = '; '.join(x for x in [pre, 'movl $%d,%%ecx' % n, copy] + [ins] * n + ['movl $0,%ecx', post] if x)
+                    pairs.append((a, b))
+    # repe / repne with the architectural termination test, on concrete data
+    data = 'cld; movl $0x2000,%esi; movl $0x3000,%edi; movb $5,(%esi); movb $5,(%edi); movb $6,1(%esi); movb $7,1(%edi); movb $8,2(%esi); movb $8,2(%edi)'
+    for n in (1, 2, 3):
+        # repe cmpsb stops after the first mismatch (2 steps when n >= 2)
+        steps = min(n, 2)
+        pairs.append((data + '; movl $%d,%%ecx; repe cmpsb' % n, data + '; movl $%d,%%ecx; ' % n + '; '.join(['cmpsb'] * steps) + '; movl $%d,%%ecx' % (n - steps)))
+        steps = 1
+        pairs.append((data + '; movl $%d,%%ecx; repne cmpsb' % n, data + '; movl $%d,%%ecx; ' % n + '; '.join(['cmpsb'] * steps) + '; movl $%d,%%ecx' % (n - steps)))
+    return pairs
+
+def strip_state(out):
+    parts = out.split(' | ')
+    if len(parts) != 3: return out
+    ids = [x for x in parts[1].split(' ; ') if not x.startswith(('tsc1 ', 'tsc2 '))]
+    return ' ; '.join(ids) + ' | ' + ' ; '.join(sorted(parts[2].split(' ; ')))
+
+def rep_check(chk, kf):
+    pairs = rep_programs(chk.rng, chk.tier)
+    flat = [p for ab in pairs for p in ab]
+    out = run_impl('impl_emul.py', flat)
+    bad = []
+    for k, (a, b) in enumerate(pairs):
+        ra, rb = strip_state(out[2 * k]), strip_state(out[2 * k + 1])
+        if ra != rb: bad.append((a, b, ra, rb))
+    chk.cov['rep_programs'] = len(pairs); chk.cov['rep_mismatches'] = len(bad)
+    byclass = {}
+    for x in bad:
+        cl = 'repe/repne' if ('repe' in x[0] or 'repne' in x[0]) else 'rep'
+        byclass.setdefault(cl, []).append(x)
+    for cl, items in sorted(byclass.items()):
+        key = 'rep:' + cl
+        if key in kf:
+            chk.report_known(key, kf[key]['what'] + ' (%d programs in this run)' % len(items)); continue
+        a, b, ra, rb = sorted(items, key=lambda x: len(x[0]))[0]
+        d = [(u, v) for u, v in zip(ra.split(' ; '), rb.split(' ; ')) if u != v][:3]
+        chk.violation('rep-prefixed string instruction differs from its unrolled steps: "%s" vs "%s": %s (%d programs of class %s)' % (a, b, d, len(items), cl),
+                      dict(program=a, unrolled=b, state=ra, unrolled_state=rb, history_class=cl, count=len(items)))
+
 def finish_with_reference(chk, lines, meta, model, impl, mism, kf):
+    rep_check(chk, kf)
     # batched reference evaluation (one model_eval call for everything)
     seeds = (0, 1, 2)
     cases = []; index = []
